@@ -266,6 +266,33 @@ class ApiInterp:
         self._send(c.w.error_info(ac, text))
         return {"kind": "errinfo", "changed": changed}
 
+    def op_timer_command(self, call, echo):
+        """The application sets / clears a quick timer through the API; nothing the client exposes may change (and no
+        subscriber may be called) until the console reports - which it then does (`echo`), with the other timer as it
+        was."""
+        from pav import cmdref
+        n = call[1]
+        if n not in self.acs:
+            return {"kind": "none"}
+        n_calls = len(self.calls)
+        exp_before = self.exposed()
+        r = self.rig.loop.call(cmdref.perform(self.rig, call))
+        self.rig.loop.settle()
+        if r[0] != "ok":
+            self.bad("command-raised", f"{call}: {r!r}")
+        self.nt.add("api-command")
+        self.check_model(f"after the API call {call[0]} (before the console reported anything)")
+        if len(self.calls) != n_calls:
+            self.bad("spurious-notification:command", f"{call}: subscribers {[c[0] for c in self.calls[n_calls:]]} were invoked by an "
+                                                      f"API call although the console has reported nothing")
+        if not echo or call[0] == "quick_duration":
+            return {"kind": "none"}
+        which = "on" if call[2] == "ON_TIMER" else "off"
+        new = copy.deepcopy(self.state["timers"][str(n)])
+        new[which] = {"disabled": False, "hour": call[3], "minute": call[4]} if call[0] == "timer_time" else \
+            {"disabled": True, "hour": 0, "minute": 0}
+        return self.op_timer_status({str(n): new})
+
     def op_error_mode(self, mode, texts):
         c = self.rig.console
         c.error_mode = mode
@@ -445,4 +472,11 @@ def frame_ops(inst, *, common=False):
                          st.dictionaries(st.sampled_from([str(n) for n in ac_ids]), etext)).map(lambda t: ["error_mode", t[0], t[1]]))
     ops.append(st.tuples(st.sampled_from(ac_ids), st.one_of(st.none(), etext)).map(lambda t: ["error_info", t[0], t[1]]))
     ops.append(st.integers(0, 7).map(lambda n: ["unknown", n]))
+    tcall = st.one_of(
+        st.tuples(st.sampled_from(ac_ids), st.sampled_from(["ON_TIMER", "OFF_TIMER"]), st.integers(0, 23), st.integers(0, 59)).map(
+            lambda t: ["timer_time", *t]),
+        st.tuples(st.sampled_from(ac_ids), st.sampled_from(["ON_TIMER", "OFF_TIMER"])).map(lambda t: ["timer_clear", *t]),
+        st.tuples(st.sampled_from(ac_ids), st.sampled_from(["ON_TIMER", "OFF_TIMER"]), st.integers(0, 600)).map(
+            lambda t: ["quick_duration", *t]))
+    ops.append(st.tuples(tcall, st.booleans()).map(lambda t: ["timer_command", t[0], t[1]]))
     return st.one_of(*ops)
